@@ -8,6 +8,10 @@
 //! 1 violation (a `VIOLATION property=<id> replay=<path>` line was printed), 2 harness error.
 
 mod c01;
+mod c08;
+mod c11;
+mod c18;
+mod enumf;
 mod engine;
 mod faults;
 mod foreign;
@@ -26,7 +30,7 @@ use json::J;
 use std::collections::BTreeMap;
 
 fn checks() -> Vec<Box<dyn Check>> {
-    vec![Box::new(c01::C01)]
+    vec![Box::new(c01::C01), Box::new(c08::C08), Box::new(c11::C11), Box::new(c18::C18)]
 }
 
 fn find(id: &str) -> Option<Box<dyn Check>> {
